@@ -13,6 +13,7 @@ import (
 	"verif/harness/backends"
 	"verif/harness/evid"
 	"verif/harness/oracle"
+	"verif/harness/s3x"
 
 	"pgregory.net/rapid"
 )
@@ -34,6 +35,7 @@ func c11Body(n int) []byte {
 }
 
 type c11Env struct {
+	vids map[int]string // version IDs of the objects named by sizes >= c11Ver
 	st   *backends.Stack
 	have map[int]bool
 }
@@ -46,7 +48,33 @@ func newC11Env(k backends.Kind) *c11Env {
 	return &c11Env{st: st, have: map[int]bool{}}
 }
 
+// c11Ver + n as a size names a non-current version of n bytes in a versioned bucket, read with
+// ?versionId= (memory backend only).
+const c11Ver = 1 << 24
+
 func (e *c11Env) key(size int) string {
+	if size >= c11Ver {
+		n := size - c11Ver
+		k := fmt.Sprintf("ver/obj-%d", n)
+		if !e.have[size] {
+			if e.vids == nil {
+				e.vids = map[int]string{}
+				if r := s3x.Do(e.st.Handler, &s3x.Req{Method: "PUT", Path: "/bk0", Query: s3x.Q("versioning", s3x.Bare), Body: []byte(`<VersioningConfiguration><Status>Enabled</Status></VersioningConfiguration>`)}); r.Status != 200 {
+					panic("harness: enable versioning: " + r.String())
+				}
+			}
+			r := put(e.st, "bk0", k, c11Body(n))
+			if r.Status != 200 || r.Header.Get("x-amz-version-id") == "" {
+				panic("harness: versioned put: " + r.String())
+			}
+			e.vids[size] = r.Header.Get("x-amz-version-id")
+			if r := put(e.st, "bk0", k, c11Body(n+2)); r.Status != 200 { // the version read is not the current one
+				panic("harness: " + r.String())
+			}
+			e.have[size] = true
+		}
+		return k
+	}
 	if size < 0 {
 		// negative sizes name objects that reached the file-system backends' storage behind the
 		// server's back (no metadata file; or rewritten with another size): -size-1 bytes
@@ -81,14 +109,20 @@ func (e *c11Env) key(size int) string {
 // c11Outcome is the normalised observable result, used for cross-backend comparison.
 func c11Check(e *c11Env, size int, header string) (ds []disc, outcome string, class string) {
 	key := e.key(size)
+	var q [][2]string
+	if size >= c11Ver {
+		q = s3x.Q("versionId", e.vids[size])
+		size -= c11Ver
+	}
 	if size < 0 {
 		size = -size - 1
 	}
 	body := c11Body(size)
-	var r = get(e.st, "bk0", key, "Range", header)
-	if header == "" {
-		r = get(e.st, "bk0", key)
+	rq := &s3x.Req{Method: "GET", Path: "/bk0/" + key, Query: q}
+	if header != "" {
+		rq.Header = s3x.H("Range", header)
 	}
+	r := s3x.Do(e.st.Handler, rq)
 	hv := strings.Trim(header, " \t") // net/http strips optional whitespace around field values
 	v := oracle.Range(int64(size), hv)
 	if len(hv) >= 6 && hv[:6] != "bytes=" && strings.EqualFold(hv[:6], "bytes=") {
@@ -288,6 +322,22 @@ func c11Run(t *testing.T, c *evid.Collector) {
 				}
 			}
 			raw.st.Close()
+		}
+		// a specific (non-current) version read with ?versionId= obeys the same rules
+		for _, k := range kinds {
+			if k != backends.Mem {
+				continue
+			}
+			ver := newC11Env(k)
+			for size := 0; size <= 5; size++ {
+				for _, h := range append(c11Headers(size), c11Edge(size)...) {
+					ds, _, class := c11Check(ver, c11Ver+size, h)
+					cs := c11Case{k, c11Ver + size, h}
+					c.Case(evid.FP(string(k), "version", fmt.Sprint(size), h), class != "none", func() interface{} { return cs }, "class:"+class, "backend:"+string(k), "src:by-version-id")
+					report(c, "range", ds, cs)
+				}
+			}
+			ver.st.Close()
 		}
 		c.Exhaustive(false) // the small scope is complete, the property's domain is not
 		c.Set("exhaustive_scope", fmt.Sprintf("sizes 0..%d x {bytes=F-L, bytes=F-, bytes=-S : F,L,S in -1..%d} on %d configurations: complete", n, n+2, len(kinds)))
